@@ -450,6 +450,25 @@ def limit_configs(rng, thorough, limit_opts):
 
 
 # =========================================================================================== checks
+class Batch:
+    """model requests are answered in batches: every call of the driver goes through the lake lock shared with the other builds"""
+
+    def __init__(self, ctx):
+        self.ctx = ctx
+        self.items = []
+
+    def add(self, requests, finish):
+        self.items.append((list(requests), finish))
+
+    def flush(self):
+        items, self.items = self.items, []
+        replies = self.ctx.model("C07", [q for qs, _ in items for q in qs])
+        i = 0
+        for qs, finish in items:
+            finish(replies[i:i + len(qs)])
+            i += len(qs)
+
+
 def explore(ctx, env, label, kind, spec_json, expr_fn, task_ids, handle_ids, model_for, cfgs, cap, nrandom, classify):
     """Runs one workflow under the limit configurations `cfgs` and many completion orders; compares every run with the model
     (`model_for(obs) -> request line`) and all runs with each other.  Returns the list of run records."""
@@ -481,8 +500,12 @@ def explore(ctx, env, label, kind, spec_json, expr_fn, task_ids, handle_ids, mod
                 runs.append(rec)
                 pending.append((rec, model_for(obs)))
         ctx.count("schedules_enumerated_exhaustively", exhausted)
-    # model
-    replies = ctx.model("C07", [q for _, q in pending])
+    ctx.batch.add([q for _, q in pending],
+                  lambda replies: finish_explore(ctx, label, kind, spec_json, runs, pending, replies, classify))
+    return runs
+
+
+def finish_explore(ctx, label, kind, spec_json, runs, pending, replies, classify):
     for (rec, q), rep in zip(pending, replies):
         dup, mval, mrows = model_rows(rep)
         rec["model_value"], rec["model_rows"], rec["dup"] = mval, mrows, dup
@@ -518,7 +541,7 @@ def explore(ctx, env, label, kind, spec_json, expr_fn, task_ids, handle_ids, mod
     return runs
 
 
-def check_flow(ctx, env, flow, label, thorough):
+def check_flow(ctx, env, flow, label, thorough, corpus=False):
     ns = "c07f%d" % env.n
     env.n += 1
     mod = env.load_module(ns + "_mod", flow.module_text(ns))
@@ -529,7 +552,8 @@ def check_flow(ctx, env, flow, label, thorough):
 
     q = "graph " + sx([Raw("tbl")] + flow.tbl()) + " " + sx([Raw("root"), 0, flow.root_arg])
     return explore(ctx, env, label, "handle-free", flow.to_json(), lambda: mod.t0(flow.root_arg), task_ids, {},
-                   lambda obs: q, limit_configs(ctx.rng, thorough, flow.limits), cap=(60 if thorough else 14), nrandom=(12 if thorough else 4),
+                   lambda obs: q, limit_configs(ctx.rng, thorough, flow.limits)[:(2 if corpus and not thorough else 9)],
+                   cap=(60 if thorough else (8 if corpus else 14)), nrandom=(12 if thorough else (0 if corpus else 4)),
                    classify=lambda a, b: SIG_NEW)
 
 
@@ -639,18 +663,22 @@ def check_hflow(ctx, env, hf, label, thorough, recount, witness=None):
     cfgs = limit_configs(ctx.rng, thorough, [hf.use_limits, hf.slow_limits])
     if witness == SIG_ORDER:
         # the witness: replayed once, accounted once
-        runs = []
+        runs, qs = [], []
         for sched in ([0, 0, 0, 0, 0, 0], [0, 1, 0, 0, 0, 0]):
             ctl = make_ctl(schedule=sched)
             status, val, rows, obs = run_once(env, lambda: mod.main(), cfgs[0][1], ctl, task_ids, handle_ids)
-            q = model_for(obs)
-            dup, mval, mrows = model_rows(ctx.model("C07", [q])[0])
+            qs.append(model_for(obs))
             case = dict(label=label, kind="handles", spec=hf.to_json(), schedule=sched, entries=obs["entry_ids"])
             ctx.case(key=(label, tuple(sched)), kind="handles-witness", limits="unlimited")
-            if mval != val or mrows != rows:
-                ctx.mismatch("handle witness: recorded call graph differs from the model", case=case,
-                             model=sorted(mrows - rows)[:3], impl=sorted(rows - mrows)[:3])
             runs.append((val, rows, case))
+
+        def finish(replies):
+            for (val, rows, case), rep in zip(runs, replies):
+                dup, mval, mrows = model_rows(rep)
+                if mval != val or mrows != rows:
+                    ctx.mismatch("handle witness: recorded call graph differs from the model", case=case,
+                                 model=sorted(mrows - rows)[:3], impl=sorted(rows - mrows)[:3])
+        ctx.batch.add(qs, finish)
         ctx.expect_known(SIG_ORDER, runs[0][1] != runs[1][1], case=runs[1][2],
                          what="use(h, slow(10)) / use(h, slow(11)) get the handle forks 1/2 or 2/1 depending on which slow() finishes first")
         return runs
@@ -683,18 +711,22 @@ def check_fork(ctx, env, flow, a_call, b_call, label, thorough, witness=False):
 
     spec = dict(flow.to_json(), kind="fork", a=list(a_call), b=list(b_call))
     if witness:
-        outs = []
+        outs, qs = [], []
         for sched in ([0, 0, 0, 0, 0, 0], [0, 1, 1, 1, 1, 1]):
             ctl = make_ctl(schedule=sched)
             status, val, rows, obs = run_once(env, lambda: mod.main(), {r: 100 for r in RES}, ctl, task_ids, {})
-            q = model_for(obs)
-            dup, mval, mrows = model_rows(ctx.model("C07", [q])[0])
+            qs.append(model_for(obs))
             case = dict(label=label, spec=spec, schedule=sched, forked_child_seen=obs["seen"])
             ctx.case(key=(label, tuple(sched)), kind="fork-witness", limits="unlimited")
-            if mval != val or mrows != rows:
-                ctx.mismatch("fork_thread witness: recorded call graph differs from the model", case=case,
-                             model=sorted(mrows - rows)[:3], impl=sorted(rows - mrows)[:3])
-            outs.append((rows, case))
+            outs.append((rows, case, val))
+
+        def finish(replies):
+            for (rows, case, val), rep in zip(outs, replies):
+                dup, mval, mrows = model_rows(rep)
+                if mval != val or mrows != rows:
+                    ctx.mismatch("fork_thread witness: recorded call graph differs from the model", case=case,
+                                 model=sorted(mrows - rows)[:3], impl=sorted(rows - mrows)[:3])
+        ctx.batch.add(qs, finish)
         ctx.expect_known(SIG_FORK, outs[0][0] != outs[1][0], case=outs[1][1],
                          what="main() = cond(fork_thread(slow(7)), other(3), other(3)): main's call hash lists slow(7) only when it finished first")
         return outs
@@ -745,6 +777,7 @@ def run(ctx):
     import ctl_sched
     ctl_sched.quiet()
     env = Env()
+    ctx.batch = Batch(ctx)
     thorough = ctx.tier == "thorough"
     budget = 42 if ctx.tier == "quick" else 480
     try:
@@ -757,7 +790,8 @@ def run(ctx):
         check_fork(ctx, env, Flow([("arg",), ("arg",)], [None, None], 0), (0, 7), (1, 3), "corpus:fork-thread-witness", thorough, witness=True)
         check_hflow(ctx, env, hf_re, "corpus:limits-reentry", thorough, recount)
         for name, fl in corpus_flows().items():
-            check_flow(ctx, env, fl, "corpus:" + name, thorough)
+            check_flow(ctx, env, fl, "corpus:" + name, thorough, corpus=True)
+        ctx.batch.flush()
         ctx.note("build+audit %.0fs, corpus %.0fs" % (t_start, ctx.elapsed() - t_start))
         rng = ctx.rng
         k = 0
@@ -777,6 +811,9 @@ def run(ctx):
                 b = (rng.randrange(n), rng.choice([3, 4]))
                 check_fork(ctx, env, fl, a, b, "fork%d" % k, thorough)
             k += 1
+            if k % 8 == 0:
+                ctx.batch.flush()
+        ctx.batch.flush()
         ctx.note("workflows explored: %d" % k)
     finally:
         env.close()
@@ -791,6 +828,7 @@ def replay(ctx, case):
         spec = c.get("spec") or {}
         print("replay:", json.dumps({k: v for k, v in c.items() if k != "spec"})[:400])
         recount, _ = probe_recount(ctx, env)
+        ctx.batch = Batch(ctx)
         if spec.get("kind") == "flow":
             check_flow(ctx, env, Flow([tup(b) for b in spec["bodies"]], spec["limits"], spec["root_arg"]), "replay", True)
         elif spec.get("kind") == "handles":
@@ -801,5 +839,6 @@ def replay(ctx, case):
                        "replay", True)
         else:
             run(ctx)
+        ctx.batch.flush()
     finally:
         env.close()
